@@ -8,7 +8,8 @@ def run(tier):
         directed_jobs=lambda s0: [(s0 + 1, dict(nd=2, np=1, copies=2), "directed-decoy-prehash", 0, directed.decoy_prehash),
                                   (s0 + 2, dict(nd=2, np=2, copies=2), "directed-import-past", 0, directed.import_past_content),
                                   (s0 + 3, dict(nd=2, np=2, copies=2), "directed-import-past", 0, directed.import_past_content),
-                                  (s0 + 4, dict(nd=2, np=1, copies=2, inomode=True), "directed-twins-swapped", 0, directed.twins_swapped_fix)],
+                                  (s0 + 4, dict(nd=2, np=1, copies=2, inomode=True), "directed-twins-swapped", 0, directed.twins_swapped_fix),
+                                  (s0 + 5, dict(nd=2, np=1, copies=2, inomode=True), "directed-uuid-appears", 0, directed.uuid_appears)],
         shapes=[(3, 2), (2, 1), (2, 2), (4, 2), (3, 1), (2, 3)],
         rule="histories with true copies and decoys (same name, size and time stamp, other content) on other disks, moves within "
              "and across disks, zero and non-zero sub-second stamps (name-only matching), --force-nocopy, pre-hash (-h), fix with "
